@@ -884,12 +884,18 @@ def execute(scen):
                     # a second analysis on the same Analysis object: what it reports must again be a fresh,
                     # ordered list of equilibrated states (nothing left over from the first run)
                     first_exit = mon.final_checks(None)
+                    held_incs, held_cs = an.increments, an.cs          # what the caller got back from the first call
+                    held_copy = ([float(x) for x in held_incs], [sha_bytes(np.ascontiguousarray(x).tobytes()) for x in held_cs])
                     mon.begin_run()
                     bump(res['probes'], 'second_run_on_same_analysis_object')
                     if world == 'R' and hasattr(obj, 'static'):
                         obj.static(NLgeom=True, silent=True)
                     else:
                         an.static(NLgeom=True, silent=True)
+                    now = ([float(x) for x in held_incs], [sha_bytes(np.ascontiguousarray(x).tobytes()) for x in held_cs])
+                    if now != held_copy:
+                        mon.fail('I3-snapshot', {'why': 'the lists returned by the first analysis were altered by a later analysis on the '
+                                                        'same Analysis object', 'before': held_copy[0][-4:], 'after': now[0][-4:]})
         except Violation:
             raise
         except _Budget as e:
